@@ -17,6 +17,7 @@ LEVEL = {
  "C20": ("proof", "Lean: every built-in predicate's executable model proved equal to an independently stated specification (inclusive len comparisons, order, membership, prefix/suffix/infix, ASCII classes with range form = set form, instants). Partial: Email/UUID regex vs grammar recogniser is validated exhaustively on short strings, not proved. Tie: S-preds (exhaustive boundary grid) on the real tests.", "§7 C20"),
  "C12": ("proof", "Lean: event-log laws (tests once in order with the node's value; PostTransforms in order, prefix up to first error, one issue, gated on no issue, not swallowed by Catch; custom functions) + log refinement. Tie: S-engine correspondence on the full callback log recorded by instrumented callbacks.", "§7 C12"),
  "C13": ("proof", "Lean: node-level agreement of Parse and Validate on present, non-zero values (prim/ptr/custom, same field keys); partial: the whole-tree statement is validated, not proved. Direct oracle: Validate(&v) vs Parse(toMap(v), &fresh) on fully populated values of random schemas on the real code.", "§7 C13"),
+ "C15": ("proof", "Lean: the dispatch tables REGENERATED from zhttp.Request's switch statements are the documented ones (`decide`); GET/HEAD read the query for every Content-Type; parameters after ';' are ignored for every media type and parameter string; list/scalar/absent rule of url.Values incl. missing `k[]`; decode-failure contract (one issue, no callback, destination untouched); {} = every field absent. Tie: S-http exhaustive product (9 methods x 14 Content-Types x 9 bodies x 5 queries x {Struct, Ptr(Struct)}) with per-source sentinels.", "§7 C15"),
  "C16": ("proof", "Lean: refinement of a heap machine (schema objects holding Go slice headers into arrays with spare capacity, in-place append, any growth policy, clone behaviour from the regenerated fact) to a pure specification with set semantics — for EVERY program over Struct/Test/Pick/Omit/Extend/Merge, by an ownership invariant carried over the op list; frame corollaries (operands never modified, siblings independent); the sharing clone reproduces defect D14 by `decide`. Tie: S-helpers executes every schema object of random programs on the real code (Tests and PostTransforms).", "§7 C16"),
  "C17": ("proof", "Lean: builder state machine with the isNot flag: Not() locality for every prefix/continuation (negated predicate, flipped code, flag cleared, nothing after it changes), isNot clear after every well-formed chain, last-call-wins for Required/Optional/Default/Catch, tests only appended, coercer selection, `not_` code flip by `decide` on the regenerated catalogue, schema read-only fact. Tie: S-builder (call-by-call real builder vs builder model, executed), S-engine/share (one schema object at several positions vs copies).", "§7 C17"),
  "C18": ("proof", "Lean: exact-arithmetic theorems about the numeric coercers (atoi range, float->int = trunc and in range, NaN/Inf rejected, Int32 range and same number, Float32 never overflows to Inf) incl. the named examples. Tie: S-coerce boundary grid, model = implementation, plus a math/big exact oracle on the real code.", "§7 C18"),
